@@ -561,17 +561,16 @@ def _infer(col):
             has_none = True
         elif isinstance(v, bool):
             return col
-        elif isinstance(v, (int, np.integer)):
-            if not (-2 ** 63 <= v < 2 ** 63):
-                return col
-            has_num = True
-        elif isinstance(v, (float, np.floating)):
+        elif isinstance(v, (int, np.integer, float, np.floating)):
             has_num = True
         else:
             return col
-    if has_none and has_num:
-        return [NAN if v is None else v for v in col]
-    return col
+    if not (has_none and has_num):
+        return col
+    for v in col:                  # (the magnitude only matters in the None-among-numbers case: looked at last)
+        if isinstance(v, (int, np.integer)) and not (-2 ** 63 <= v < 2 ** 63):
+            return col
+    return [NAN if v is None else v for v in col]
 
 
 class Frame:
